@@ -512,8 +512,8 @@ class Ev:
                     fv = self.ev(e.func)
                 except Undecided:
                     fv = None
-                if fv is not None and _is_pure_callable(fv):
-                    return fv(*args, **kwargs)                       # operator.add, reduce, chain.from_iterable ...
+                if fv is not None and (_is_pure_callable(fv) or getattr(fv, "_ev_callable", False)):
+                    return fv(*args, **kwargs)       # operator.add, reduce, chain.from_iterable; repository function values
             if isinstance(e.func, (ast.Call, ast.Subscript, ast.IfExp)):
                 fv = self.ev(e.func)                                 # getattr(obj, name)(..), table[key](..)
                 if getattr(fv, "_ev_closure", False) or _is_pure_callable(fv) or (
